@@ -16,13 +16,13 @@ func c04Scope(e *Engine, f *ssa.Function) bool {
 	path := f.Pkg.Pkg.Path()
 	pos := e.fset.Position(f.Pos())
 	base := filepath.Base(pos.Filename)
+	if f.Name() == "init" || strings.HasPrefix(f.Name(), "init#") {
+		return false
+	}
 	switch path {
 	case v5Path, rootPath:
 		return base == "patch.go" || base == "merge.go" || base == "errors.go"
 	case jsonPath:
-		if base == "scanner.go" {
-			return true
-		}
 		return false
 	}
 	return false
@@ -94,11 +94,23 @@ func report(prop, tier string, all []*Obligation, functions []string, trusted, i
 	sort.Slice(failed, func(i, j int) bool { return failed[i].Name < failed[j].Name })
 	for _, o := range append(failed, vac...) {
 		if kf := isKnown(o.Name); kf != nil {
-			w := string(kf.Witness)
-			fmt.Printf("KNOWN-FINDING: property=%s %s %s\n", prop, o.Name, w)
-			knownPrinted = append(knownPrinted, o.Name)
-			o.Known = true
-			continue
+			// the recorded witness must still fail on the real code; otherwise this is a different violation
+			still := true
+			desc := kf.Observed
+			if len(kf.Witness) > 0 {
+				var w Witness
+				if json.Unmarshal(kf.Witness, &w) == nil && w.Body != "" {
+					r := runWitness(&w)
+					still = r.Reproduced
+					desc = w.Input + " -> " + kf.Observed
+				}
+			}
+			if still {
+				fmt.Printf("KNOWN-FINDING: property=%s %s %s\n", prop, o.Name, desc)
+				knownPrinted = append(knownPrinted, o.Name)
+				o.Known = true
+				continue
+			}
 		}
 		violations++
 		rc = 1
@@ -120,9 +132,9 @@ func report(prop, tier string, all []*Obligation, functions []string, trusted, i
 		suffix := " no-failing-input-found"
 		if o.Result.Status == "sat" {
 			rf.Model = extractModel(o)
-			if tryReplay(o, &rf) {
-				suffix = ""
-			}
+		}
+		if tryReplay(o, &rf) {
+			suffix = ""
 		}
 		rp := filepath.Join(rdir, mangle(o.Name)+".json")
 		b, _ := json.MarshalIndent(rf, "", " ")
